@@ -292,6 +292,26 @@ def rule_V(ctx):
                  any(isinstance(s, ast.Assign) and unparse(s.value) in ('NAN', 'nan') for s in n.body) for n in ast.walk(aaf.node))
     ctx.check(shield, 'C16.V', aaf, 'the last fix gets NaN: addAnalyticalFeature turns the IndexError of reading i+1 into NaN',
               witness={}, node=aaf.node, key='last')
+    # ... which requires aire_visval(track, size-1) to read the index size itself (no wrapping, no clamping)
+    wa = Walker(av, loop_mode='skip')
+    ip = Rat.atom(av.params[1])
+    reads = []
+    guarded_last = False
+    for o_ in wa.run(body_nodocstring(av), State()):
+        for e_ in o_.state.events:
+            if e_.kind == 'call' and e_.name == 'getObs' and e_.args and isinstance(e_.args[0], Rat):
+                reads.append(e_)
+        if any('size()' in repr(c_) or 'len(' in repr(c_) for c_, _ in o_.state.conds):
+            guarded_last = True
+    nxt = [e_ for e_ in reads if wa.rel.is_zero(e_.args[0] - ip - Rat.const(1))]
+    other = sorted({vr(e_.args[0]) for e_ in reads if not (e_.args[0].ispoly() and set(e_.args[0].atoms()) <= {av.params[1]})})
+    if not reads:
+        raise shape_error('aire_visval: reads of the three fixes not found', av.loc())
+    ctx.check(guarded_last or (bool(nxt) and not other), 'C16.V', av,
+              'the last fix can never be selected for removal: aire_visval(track, size-1) reads the index `size` itself, which fails and becomes NaN',
+              witness={'indices read': sorted({vr(e_.args[0]) for e_ in reads}), 'wrapped / clamped indices': other,
+                       'why': 'an index taken modulo the size (or clamped) makes the last fix an ordinary candidate with the triangle (n-2, n-1, 0): '
+                              'the simplified track can lose its last fix'}, node=av.node, key='last-read')
     # loop guard and body
     st = pst.fork()
     st.events = []
